@@ -14,6 +14,7 @@ h.index) and the write index E_w."""
 import sys, os
 sys.path.insert(0, os.path.dirname(os.path.abspath(__file__)))
 from cxx_ast import *
+from fractions import Fraction
 
 LOOPVARS = {"n": "b", "x": "x", "y": "y", "j": "j"}
 MEMBERS = {"_meshsize_kd": "kd", "_meshsize_pd": "pd", "_ip": "ip", "_lastbunch": "lastbunch",
@@ -131,11 +132,43 @@ def walk(stmt, env, br):
             init = kids(vd)[0] if kids(vd) else None
             if nm == "h":
                 idx = subscript_of(vd, "_hinfo")
-                if len(idx) != 1:
-                    raise TranslateError("`hi h` is not read from _hinfo[...]")
+                if len(idx) == 1:
+                    hexpr = expr(idx[0], env)
+                else:
+                    # `hi h = P[j]` with a hoisted row pointer `const hi* const P = _hinfo + E`
+                    hexpr = None
+                    for s in find(vd, lambda m: m.get("kind") == "ArraySubscriptExpr", []):
+                        base, ix = [strip(x) for x in kids(s)]
+                        bn = (base.get("referencedDecl") or {}).get("name")
+                        if bn in env and isinstance(env[bn], tuple) and env[bn][0] == "ptr" and env[bn][1] == "_hinfo":
+                            if hexpr is not None:
+                                raise TranslateError("two table reads in one declaration")
+                            hexpr = ("add", env[bn][2], expr(ix, env))
+                    if hexpr is None:
+                        raise TranslateError("`hi h` is not read from _hinfo[...]")
                 if br.hinfo is not None:
                     raise TranslateError("two table reads in one branch")
-                br.hinfo = expr(idx[0], env)
+                br.hinfo = hexpr
+                continue
+            if init is not None and "*" in ((vd.get("type") or {}).get("qualType") or "") and "hi" in ((vd.get("type") or {}).get("qualType") or ""):
+                # hoisted pointer into the table: `_hinfo + E` (or `&_hinfo[E]`)
+                e = strip(init)
+                off = None
+                if e.get("kind") == "BinaryOperator" and e.get("opcode") == "+":
+                    a, b = [strip(x) for x in kids(e)]
+                    if a.get("kind") == "MemberExpr" and a.get("name") == "_hinfo":
+                        off = expr(b, env)
+                    elif b.get("kind") == "MemberExpr" and b.get("name") == "_hinfo":
+                        off = expr(a, env)
+                elif e.get("kind") == "UnaryOperator" and e.get("opcode") == "&":
+                    ix = subscript_of(e, "_hinfo")
+                    if len(ix) == 1:
+                        off = expr(ix[0], env)
+                elif e.get("kind") == "MemberExpr" and e.get("name") == "_hinfo":
+                    off = ("num", Fraction(0))
+                if off is None:
+                    raise TranslateError("pointer %s into the table is not `_hinfo + E`" % nm)
+                env[nm] = ("ptr", "_hinfo", off)
                 continue
             if nm == "value":
                 continue
